@@ -104,6 +104,7 @@ func runC05(w *World, r *Report) {
 		}
 	}
 
+	builtRule(w, r, "extent", func(k *Kind) bool { return k.Unmarshal != nil && !strings.HasPrefix(k.Name, "protocol.") })
 	// ---------------------------------------------------------------- trailing
 	var decoders []*FuncInfo
 	for _, k := range w.KindsL {
